@@ -1,0 +1,15 @@
+//go:build verif
+
+package parsley
+
+// VerifHook exists only in builds with the "verif" tag. When set, it is called at every
+// Context.RegisterCall, i.e. each time a combinator is about to invoke one of its sub-parsers.
+// The verification harness uses it as a scheduling point of its controlled scheduler
+// (exploration of interleavings of concurrent parses that share one parser graph).
+var VerifHook func()
+
+func verifPoint() {
+	if VerifHook != nil {
+		VerifHook()
+	}
+}
